@@ -140,6 +140,7 @@ type Interp struct {
 	gor     *goroutine // current goroutine (scheduler)
 	sched   *scheduler
 	stubs   map[string]int
+	files   map[string]Value // in-memory file system of os.WriteFile / os.ReadFile (per path)
 	fnCount map[string]int
 	initEnv map[ssa.Value]Value
 	initBusy map[ssa.Value]bool
